@@ -279,6 +279,65 @@ def normalize(raw):
     if fmap:
         log["fields"] = fmap
         _rename_fields(raw, fmap)
+    # ---- parameters of a function declared in another order (same names): the body's argument locals, the `inputs`
+    # of its signature and the argument lists of every call to it are permuted back to the pinned order
+    perms = {}
+    for b in raw["bodies"]:
+        pf = pin["fns"].get(b["path"])
+        if not pf or b["kind"] not in ("Fn", "AssocFn") or len(pf["params"]) != b["arg_count"] or b["arg_count"] < 2:
+            continue
+        nm = {}
+        for n in b["names"]:
+            pl = n["place"]
+            if not pl["p"] and 1 <= pl["l"] <= b["arg_count"]:
+                nm.setdefault(pl["l"], n["name"])
+        cn = [nm.get(i, "") for i in range(1, b["arg_count"] + 1)]
+        want = pf["params"]
+        if cn == want or "" in cn or len(set(cn)) != len(cn) or sorted(cn) != sorted(want):
+            continue
+        perm = {i + 1: want.index(cn[i]) + 1 for i in range(len(cn))}     # current local -> pinned local
+        perms[b["path"]] = perm
+
+        def remap(o, perm=perm):
+            if isinstance(o, dict):
+                if "l" in o and "p" in o and isinstance(o["p"], list):
+                    o["l"] = perm.get(o["l"], o["l"])
+                    for el in o["p"]:
+                        if isinstance(el, dict) and "index" in el:
+                            el["index"] = perm.get(el["index"], el["index"])
+                    return
+                for k, v in o.items():
+                    if k not in ("span", "fn"):
+                        remap(v)
+            elif isinstance(o, list):
+                for v in o:
+                    remap(v)
+        remap(b["blocks"])
+        remap(b["names"])
+        old = list(b["locals"])
+        for i, j in perm.items():
+            b["locals"][j] = old[i]
+    if perms:
+        for f in raw["fns"]:
+            p = perms.get(f["path"])
+            if p and len(f.get("inputs", [])) == len(p):
+                old = list(f["inputs"])
+                for i, j in p.items():
+                    f["inputs"][j - 1] = old[i - 1]
+        for b in raw["bodies"]:
+            for blk in b["blocks"]:
+                t = blk["term"]
+                if t.get("t") != "call":
+                    continue
+                fn = t.get("func", {}).get("fn") if t.get("func", {}).get("k") == "const" else None
+                if not fn:
+                    continue
+                p = perms.get(fn.get("resolved") or fn.get("path"))
+                if p and len(t["args"]) == len(p):
+                    old = list(t["args"])
+                    for i, j in p.items():
+                        t["args"][j - 1] = old[i - 1]
+        log["param_order"] = {k: [v[i] for i in sorted(v)] for k, v in perms.items()}
     # ---- parameter names
     for b in raw["bodies"]:
         pf = pin["fns"].get(b["path"])
